@@ -11,6 +11,7 @@ TITLE = "Format-constraint evaluation is Boolean and explains every failure"
 ENGINE = "e1-bounded-enumeration"
 
 BOUNDS = {"quick": [1, 2, 3, 4], "thorough": [1, 2, 3, 4, 5]}
+ORDER_EXPRS = ["[950]O([951]U[952])", "([952] X [950]) U [951]", "[951] U [952] O [950]"]
 BOOL = {"and_composition": lambda a, b: a and b, "or_composition": lambda a, b: a or b, "xor_composition": lambda a, b: a != b}
 
 
@@ -21,7 +22,8 @@ def describe(tier):
                 "format_constraints_fulfilled == Boolean value (Python and / or / !=) of the implementation's parse tree; an error message is "
                 "present iff the result is unfulfilled; through evaluate_format_constraint_tree (messages supplied) and through "
                 "format_constraint_evaluation with a harness FcEvaluator whose evaluate methods return no message (default-message path), "
-                "sync and async evaluation methods; None and '' count as fulfilled. Non-trivial = (expression, assignment) pairs with >= 2 "
+                "sync and async evaluation methods, and (3 keys, all 8 assignments, 3 expressions) under ALL completion orders of "
+                "suspending evaluate_<key> coroutines on the virtual event loop; None and '' count as fulfilled. Non-trivial = (expression, assignment) pairs with >= 2 "
                 "operators.",
         "bounds": {"leaves": BOUNDS[tier]},
         "exhaustive": True,
@@ -31,6 +33,10 @@ def describe(tier):
 
 def plan(tier, seed):
     items = [{"fam": "empty", "seed": seed}]
+    # completion orders of suspending evaluate_<key> methods (virtual event loop): "under the evaluated single constraints"
+    for e in range(len(ORDER_EXPRS)):
+        for bits in range(8):
+            items.append({"fam": "orders", "expr": e, "bits": bits, "early": 0 if tier == "quick" else 1})
     for n in BOUNDS[tier]:
         parts = {1: 1, 2: 1, 3: 4, 4: 32, 5: 512}[n]
         for p in range(parts):
@@ -115,6 +121,8 @@ def run_item(item):
                 r.violation("absent-not-fulfilled", {"expr": e, "empty": True}, "fulfilled, no message", repr(rr[1]))
         r.sample({"expr": None})
         return r
+    if item["fam"] == "orders":
+        return _run_orders(item, r)
     pools = X.pools(item["seed"])
     i = -1
     for ast in A.asts(item["n"], "all", pools={"fc": pools["fc"][:5], "rc": [], "hint": []}, classes=("fc",),
@@ -136,7 +144,58 @@ def run_item(item):
     return r
 
 
+def _orders_setup(item):
+    import json
+
+    from mc import vloop
+
+    I = X.init()
+    expr = ORDER_EXPRS[item["expr"]]
+    val = {k: bool(item["bits"] >> i & 1) for i, k in enumerate(("950", "951", "952"))}
+    tt = X.parse(expr)[2]
+    exp = _bool(tt, val)
+
+    def factory(sched):
+        async def y(kind, key):
+            await sched.point(f"{kind}:{key}")
+
+        env = I.Env(fc={k: (v, None if v else f"msg {k}") for k, v in val.items()}, yielder=y)
+
+        async def main():
+            I.ENV.set(env)
+            r = await I.format_constraint_evaluation(expr)
+            return [r.format_constraints_fulfilled, r.error_message is not None]
+
+        return main()
+
+    def observe(ex):
+        return json.dumps(["exception", type(ex.exception).__name__] if ex.exception is not None else ex.result)
+
+    return vloop, factory, observe, json.dumps([exp, not exp]), expr, val
+
+
+def _run_orders(item, r):
+    vloop, factory, observe, want, expr, val = _orders_setup(item)
+    exp = vloop.explore(factory, observe, order_bound=None, early_bound=item["early"])
+    r.evaluations += exp.schedules
+    r.states += exp.decision_points
+    r.transitions += exp.decision_points
+    r.traces += exp.schedules
+    r.nontrivial += max(0, len(exp.completion_traces) - 1)
+    r.stat("schedules", exp.schedules)
+    for out in exp.outcomes:
+        if out != want:
+            r.violation("boolean-value/completion-order", {"orders": item, "choices": exp.first_schedule_of_outcome[out]}, want, out,
+                        f"{expr} under {val}: some completion orders of the evaluate_<key> coroutines give another result")
+    r.sample({"expr": expr, "fc": val, "schedules": exp.schedules})
+    return r
+
+
 def replay(case):
+    if "orders" in case:
+        vloop, factory, observe, want, expr, val = _orders_setup(case["orders"])
+        out = observe(vloop.run_schedule(factory, case["choices"]))
+        return [] if out == want else [{"kind": "boolean-value/completion-order", "case": case, "expected": want, "observed": out}]
     if case.get("empty"):
         return run_item({"fam": "empty", "seed": 0}).violations
     return check_expr(case["expr"], case.get("fc"))[0]
